@@ -14,9 +14,9 @@ type expect struct {
 	Front       string // "builder" or "e2e"
 	Who         string // builder function, or router/scenario
 	RedirectURI string
-	Want        string            // response mode asked for ("" = default of the response type)
-	Params      []pair            // values known literally
-	Present     []string          // parameters that must arrive, value produced inside the library (only presence is judged)
+	Want        string                        // response mode asked for ("" = default of the response type)
+	Params      []pair                        // values known literally
+	Present     []string                      // parameters that must arrive, value produced inside the library (only presence is judged)
 	Verify      map[string]func(string) error // parameters whose integrity is verified cryptographically (id_token, default-crypto tokens)
 	AllowExtra  map[string]bool
 	Dim         string         // dimension vector of the case
